@@ -281,7 +281,7 @@ ADDENDA = {
            'refer to the table.',
     'C16': ' _max_length() must equal the sum of the component widths of the format; an encoder branch that drops trailing 00 fields may only '
            'serve formats with an optional part; the fixed/variable choice in encode() may depend on the fnc1 flag only; the separator is '
-           'never used as a character set (strip family); compact() deletes only the parentheses and clean() leaves the 82 GS1 value characters alone.',
+           'never used as a character set (strip family); compact() deletes only the parentheses and clean() leaves the 82 GS1 value characters alone. In a sequence-value branch of _encode_value() every return depends on every component the branch reads (C16.pair).',
     'C17': ' Paths of validate() that return without any check are limited to two documented modules. Prefixes that compact()/validate() '
            'recognise and cut off before the check (startswith / slice comparison / membership, then number[k:]) must be pairwise more than one '
            'substitution apart when they have the same length (C17.discard).',
